@@ -524,6 +524,9 @@ def run(ctx):
     r08_6_enum_tables(ctx)
     from rules import c12 as _c12, c09 as _c09, c13 as _c13
 
+    from rules import c04 as _c04f
+
+    _c04f.r04_8_has_return(ctx)  # an action gets Approve() appended exactly when some path of it can fall through (a loop can run zero times) (shared with C04)
     _c09.r09_5_contract_names(ctx)  # the selector a method is dispatched on is the selector of its registered name (shared with C09)
     _c13.r13_1_bytes_forms(ctx)  # the `method` pseudo-op holds the signature text itself, so the selector is the one the contract advertises (shared with C13)
 
